@@ -112,6 +112,10 @@ pub trait Space {
     fn chunk(&self) -> u64 {
         2000
     }
+    /// How many abnormal ends (timeouts, worker deaths) are tolerated before exploration stops.
+    fn abnormal_cap(&self) -> u64 {
+        48
+    }
     /// Index ranges whose cases are slow: scheduled first, one case per chunk.
     fn heavy(&self) -> Vec<(u64, u64)> {
         vec![]
@@ -489,7 +493,7 @@ pub fn explore(
     let abn_cap: u64 = std::env::var("VERIF_ABNORMAL_CAP")
         .ok()
         .and_then(|s| s.parse().ok())
-        .unwrap_or(48);
+        .unwrap_or_else(|| space.abnormal_cap());
     let abn = Arc::new(AtomicU64::new(0));
     let (errtx, errrx) = mpsc::channel::<String>();
     std::thread::scope(|sc| {
@@ -723,6 +727,18 @@ pub fn check_main(space: &(dyn Space + Sync), cfg: &RunCfg) -> i32 {
                 return 2;
             }
         }
+    }
+
+    // full list of this run's violations (scratch, for inspection)
+    {
+        let dir = cfg.verif_dir.join("target").join("violations");
+        let _ = std::fs::create_dir_all(&dir);
+        let mut body = String::new();
+        for v in agg.violations.iter().take(20000) {
+            body.push_str(&json!({"idx": v.idx, "case": v.case, "sig": v.sig, "detail": v.detail}).to_string());
+            body.push('\n');
+        }
+        let _ = std::fs::write(dir.join(format!("{}.jsonl", id)), body);
     }
 
     // Replays
